@@ -3,9 +3,10 @@
 import re, os
 from tools import cxx2c
 from tools.cxx2c import Lower, Unsupported, kids, qt, qt_sugar, strip, strip_parens, callee_name, norm_type, walk
+from tools.cxx2c import REPO as _REPO
 
 NAME = 'SCOPE'
-SRC = '/repo/src/bloch/runtime/runtime_evaluator.cpp'
+SRC = _REPO + '/src/bloch/runtime/runtime_evaluator.cpp'
 NAMESPACE = 'bloch::runtime'
 FUNCS = []
 AST_FILTER = ['RuntimeEvaluator::lookup', 'RuntimeEvaluator::assign', 'RuntimeEvaluator::call', 'RuntimeEvaluator::callMethod', 'RuntimeEvaluator::runConstructorChain', 'RuntimeEvaluator::beginScope']
